@@ -435,6 +435,8 @@ def run_case(case: dict, prop=None):
         if da is None:
             break
         log.append(['propose', da.to_numbers()])
+        faults['global_random_reseeded_between_twins'] = \
+            faults.get('global_random_reseeded_between_twins', 0) + 1
         check_dna(da, f'propose[{case.get("algo_kind")}:{kind_of(case["repro"]["b"]) if case.get("algo_kind") == "evolution" else "-"}]', g)
         if V:
             break
@@ -476,6 +478,8 @@ def run_case(case: dict, prop=None):
                 break
             if err1 is not None:
                 probes['operator_inapplicable'] = probes.get('operator_inapplicable', 0) + 1
+                faults['operator_raised_inputs_rechecked'] = \
+                    faults.get('operator_raised_inputs_rechecked', 0) + 1
                 continue
             # determinism of seeded operators w.r.t. the global random stream
             _global_random.seed(case['noise_b'] + 17 * g + 3)
